@@ -28,17 +28,19 @@ package res
 //@ spec func allDollar(p string, i int) bool
 //@   decreases len(p) - i
 //@   = ite(i < 0 || i >= len(p) || p[i] == '.', true, p[i] == '$' && allDollar(p, i+1))
-//@ spec func pvalid(p string) bool
+//@ # pvalid0: the grammar without the "a tag has a name" clause (recursion free); pvalid adds that clause
+//@ spec func pvalid0(p string) bool
 //@   = len(p) == 0 || (
 //@       forall(i, 0, len(p), p[i] == '.' || okch(p[i]))
 //@       && p[0] != '.' && p[len(p)-1] != '.'
 //@       && forall(i, 0, len(p)-1, !(p[i] == '.' && p[i+1] == '.'))
 //@       && forall(i, 0, len(p), imp(p[i] == '*', tokStart(p, i) && (i+1 == len(p) || p[i+1] == '.')))
-//@       && forall(i, 0, len(p), imp(p[i] == '>', tokStart(p, i) && i == len(p)-1))
-//@       && forall(i, 0, len(p), imp(tokStart(p, i) && p[i] == '$', !allDollar(p, i))))
+//@       && forall(i, 0, len(p), imp(p[i] == '>', tokStart(p, i) && i == len(p)-1)))
+//@ spec func pvalid(p string) bool
+//@   = pvalid0(p) && forall(i, 0, len(p), imp(tokStart(p, i) && p[i] == '$', !allDollar(p, i)))
 //@
 //@ func (p Pattern) Matches(s string) (res bool)
-//@   requires valid: pvalid(string(p))
+//@   requires valid: pvalid0(string(p))
 //@   ensures sem: res == pmatch(string(p), s, 0, 0)
 //@   loop 1 invariant 0 <= pi && pi <= pl && 0 <= si && si <= sl && pl == len(p) && sl == len(s)
 //@   loop 1 invariant st: start == tokStart(string(p), pi)
@@ -756,3 +758,33 @@ package res
 //@   requires s != nil && s.Mux != nil
 //@   modifies alloc, res.Match.Handler, res.Match.Listeners, res.Match.Params, res.Match.Group, res.resource.rname, res.resource.pathParams, res.resource.query, res.resource.group, res.resource.h, res.resource.listeners, res.resource.s
 //@   ensures imp(isNil(err), !isNil(r))
+//@
+//@ # ================================================================ ownership and subscriptions (C09)
+//@ props C09
+//@ # tests passed to Mux.Contains are functions of the handler kinds a handler has
+//@ uninterpreted func tpred(f ref, get ref, ncall int, nauth int, nw ref, access ref) bool
+//@ func callback.testCB(self ref, h Handler) (ok bool)
+//@   ensures ok == tpred(self, ref(h.Get), len(h.Call), len(h.Auth), ref(h.New), ref(h.Access))
+//@ func contains(n *node, test func(h Handler) bool) (res bool)
+//@   nobody
+//@   requires n != nil
+//@ func (m *Mux) Contains(test func(h Handler) bool) (res bool)
+//@   requires m != nil && m.root != nil && test != nil
+//@   callback test testCB
+//@   ensures root: imp(m.root.hs != nil && tpred(ref(test), ref(m.root.hs.Get), len(m.root.hs.Call), len(m.root.hs.Auth), ref(m.root.hs.New), ref(m.root.hs.Access)), res)
+//@
+//@ pred defaultOwn(l []string, path string) = imp(len(path) == 0, len(l) == 1 && l[0] == ">")
+//@     && imp(len(path) > 0, len(l) == 2 && l[0] == path && len(l[1]) == len(path) + 2 && l[1][0:len(path)] == path && l[1][len(path)] == '.' && l[1][len(path)+1] == '>')
+//@ func (s *Service) setDefaultOwnership()
+//@   requires s != nil && s.Mux != nil && s.Mux.root != nil
+//@   modifies res.Service.resetResources, res.Service.resetAccess, alloc, elems:res.Service.resetResources
+//@   ensures keepR: imp(old(ref(s.resetResources)) != 0, same(s.resetResources, old(s.resetResources)))
+//@   ensures keepA: imp(old(ref(s.resetAccess)) != 0, same(s.resetAccess, old(s.resetAccess)))
+//@   ensures defR: imp(old(ref(s.resetResources)) == 0, ref(s.resetResources) != 0 && (len(s.resetResources) == 0 || defaultOwn(s.resetResources, s.Mux.path)))
+//@   ensures defA: imp(old(ref(s.resetAccess)) == 0, ref(s.resetAccess) != 0 && (len(s.resetAccess) == 0 || defaultOwn(s.resetAccess, s.Mux.path)))
+//@   ensures frame: forall(k, 0, len(old(s.resetResources)), same(s.resetResources[k], old(s.resetResources[k]))) && forall(k, 0, len(old(s.resetAccess)), same(s.resetAccess[k], old(s.resetAccess[k])))
+//@ func (s *Service) defaultOwnership() (l []string)
+//@   requires s != nil && s.Mux != nil
+//@   modifies alloc, elems:res.Service.resetResources
+//@   ensures ref(l) != 0 && ref(l) >= old(nextRef()) && defaultOwn(l, s.Mux.path)
+//@   ensures unchanged("res.Service.resetResources", "res.Service.resetAccess", "res.Mux.path", "res.Service.Mux")
